@@ -138,6 +138,43 @@ SPECS["C14"] = dict(
                 budget={"quick": 60, "thorough": 600})],
 )
 
+UPSTREAM_COMMON = {"harness/upstream/zz_verif_common_test.go": "internal/upstream/zz_verif_common_test.go"}
+
+SPECS["C16"] = dict(
+    level="model_checking",
+    engine="E3 evx",
+    state_based=True,
+    technique="exhaustive enumeration of (query, UDP reply, TCP-leg behaviour, history) combinations on the real UDP-with-TCP-fallback upstream in a virtual-time bubble",
+    claim="For every combination of query shape, UDP reply kind (answer, NXDOMAIN, TC with/without records, TC+SERVFAIL, silence), TCP leg behaviour (answers, answers with TC again, "
+          "dial refused, abort after write, garbage, silence) and first/second exchange: TC leads to exactly one byte-identical TCP query and the caller receives the TCP outcome, never the "
+          "truncated UDP message; without TC the UDP message is returned as received and no TCP attempt is made. The real constructor's wiring (both legs dial the same host:port) is checked in C17.",
+    trusted="scripted in-memory connections replace the kernel sockets.",
+    rule="see evidence rule written by the harness",
+    assumptions=["one outstanding exchange at a time in this scenario (concurrency is C05/C06)"],
+    parts=[dict(name="fallback", pkg="internal/upstream", run="TestVerifC16", go="go1.26", env=E3ENV, gomaxprocs=1, engines=E3ENGINES, shards=4,
+                files=dict(UPSTREAM_COMMON, **{"harness/upstream/zz_verif_c16_test.go": "internal/upstream/zz_verif_c16_test.go"}),
+                budget={"quick": 60, "thorough": 300})],
+)
+
+ROUTER_COMMON = {"harness/router/zz_verif_common_test.go": "app/router/zz_verif_common_test.go",
+                 "harness/router/zz_verif_seams_test.go": "app/router/zz_verif_seams_test.go"}
+
+SPECS["C03"] = dict(
+    level="model_checking",
+    engine="E3 evx",
+    state_based=True,
+    technique="exhaustive enumeration of (listener, query, rule outcome, upstream outcome) on the real router in a virtual-time bubble, compared with a reference decision table",
+    claim="For every query of the alphabet on every listener seam, under every rule outcome and every upstream outcome (answer, NXDOMAIN, SERVFAIL, malformed, error, silence, "
+          "answer at 5.9 s), the client receives exactly one response by 6 s on the exact virtual clock and nothing more until 20 s, with id/opcode/RD copied, QR=RA=1, at most the first "
+          "question echoed, and the rcode the reference decision table prescribes (NOTIMP / REFUSED / reject rcode / relayed rcode / SERVFAIL).",
+    trusted="listener code is entered at handleConn/handleMsg/OnTraffic/ServeHTTP/HandleFastHTTP/handleStream with scripted in-memory peers; kernel sockets, gnet, net/http, quic-go are not run.",
+    rule="see evidence rule written by the harness",
+    assumptions=["upstream replies echo the question they were asked", "rate limiting off (C15 covers refusals)"],
+    parts=[dict(name="router", pkg="app/router", run="TestVerifC03", go="go1.26", env=E3ENV, gomaxprocs=1, engines=E3ENGINES,
+                files=dict(ROUTER_COMMON, **{"harness/router/zz_verif_c03_test.go": "app/router/zz_verif_c03_test.go"}),
+                budget={"quick": 90, "thorough": 600})],
+)
+
 
 # --------------------------------------------------------------------------------------------
 # Properties not (yet) claimed. Kept current: every property without a SPECS entry must be here.
